@@ -12,6 +12,7 @@ See DESIGN.md section 5 (C06) and coq/Props/C06.v."""
 import collections
 import copy
 import json
+import os
 
 from harness import common, kgen, kmodel, krun, koracle, kprop
 from harness import c06impl
@@ -736,12 +737,17 @@ def corpus_cases():
         out.append({'mm': kgen.make_mm(c['templates']), 'templates': c['templates'], 'objs': list(kgen.DEFAULT_OBJS),
                     'nres': 2, 'strings': kgen.STRINGS, 'history': copy.deepcopy(c['history']),
                     'word': copy.deepcopy(c['word'])})
+    # the witnesses of the known findings, so that every run re-observes them
+    kdir = os.path.join(common.VERIF, 'known')
+    for fn in sorted(os.listdir(kdir)) if os.path.isdir(kdir) else []:
+        if fn.startswith('C06_') and fn.endswith('.json'):
+            out.append(json.load(open(os.path.join(kdir, fn)))['case'])
     return out + [dict(c) for c in kprop.corpus_cases(PID)]
 
 
 def run(ctx, out):
     thorough = ctx.tier == 'thorough'
-    n = 6000 if thorough else 700
+    n = 20000 if thorough else 1500
     rng = ctx.rng
     model = common.Model()
     st = collections.Counter()
